@@ -11,72 +11,85 @@ import time
 HERE = os.path.dirname(os.path.dirname(os.path.dirname(os.path.abspath(__file__))))
 sys.path.insert(0, HERE)
 sys.path.insert(0, os.environ.get('VERIF_REPO', '/repo'))
+if os.environ.get('VERIF_MODE') == 'debuglog':       # same process configuration as the shard that started this child
+    import logging
+    logging.getLogger().setLevel(logging.DEBUG)
+    logging.getLogger().addHandler(logging.NullHandler())
 
 import ECAgent.Batching as batching  # noqa: E402
 from vlib.fixtures import batchmodels as bm  # noqa: E402
 
 assert os.path.realpath(batching.__file__).startswith(os.path.realpath(os.environ.get('VERIF_REPO', '/repo')))
 
-with open(sys.argv[1]) as f:
-    specs = json.load(f)
-for spec in specs:
-    ctl = tempfile.mkdtemp(prefix='c15-')
-    out = {'id': spec['id']}
-    print(json.dumps({'starting': spec['id']}), flush=True)
-    faulthandler.dump_traceback_later(int(os.environ.get('VERIF_BATCH_WATCHDOG', '60')), exit=True)
-    try:
-        with open(os.path.join(ctl, 'control.json'), 'w') as f:
-            json.dump({'fault': spec.get('fault'), 'delays': spec.get('delays'), 'collectors': spec['collector_ids'],
-                       'collector_priority': spec.get('collector_priority')}, f)
-        params = {k: (range(*v['__range__']) if isinstance(v, dict) and '__range__' in v else v) for k, v in spec['grid'].items()}
-        params['ctl'] = ctl
-        params['stop'] = spec['stop']
-        if spec.get('use_parameter_list'):
-            if spec.get('pl_from_dict'):
-                # declared through the constructor from a dict that the caller goes on using for something else afterwards
-                source = dict(params)
-                pl = batching.ParameterList(source)
-                source['zzz_not_a_parameter'] = [1, 2, 3]
-                del source[next(iter(params))]
-            else:
-                pl = batching.ParameterList()
-                for k, v in params.items():
-                    pl.add_parameter(k, v)
-            if spec.get('pl_warmup'):
-                # the same ParameterList object has been used for another batch before (other model class, repetitions of its own)
-                batching.batch_run(bm.WarmModel, pl, repetitions=spec['pl_warmup'], processes=1)
-            if spec.get('pl_history'):
-                # the same ParameterList object was used before with one more parameter, which has been removed since
-                pl.add_parameter('zeta', [1, 2, 3])
-                pl.build()
-                pl.remove_parameter('zeta')
-            params = pl
-        if spec.get('rejected_first') is not None:
-            # an EARLIER batch_run call of the same process was refused outright (an impossible process count); the caller caught that
-            try:
-                batching.batch_run(bm.WarmModel, {'ctl': ctl, 'stop': 0, 'alpha': [7, 8, 9]}, processes=spec['rejected_first'])
-                out['rejected_first'] = 'accepted'
-            except BaseException as e:  # noqa
-                out['rejected_first'] = type(e).__name__
-        kw = {}
-        if spec.get('max_timesteps') is not None:
-            kw['max_timesteps'] = spec['max_timesteps']
-        if spec['repetitions'] != 1 or spec.get('explicit_reps'):
-            kw['repetitions'] = spec['repetitions']
-        t0 = time.time()
+
+def main():
+    with open(sys.argv[1]) as f:
+        specs = json.load(f)
+    for spec in specs:
+        ctl = tempfile.mkdtemp(prefix='c15-')
+        out = {'id': spec['id']}
+        print(json.dumps({'starting': spec['id']}), flush=True)
+        faulthandler.dump_traceback_later(int(os.environ.get('VERIF_BATCH_WATCHDOG', '60')), exit=True)
         try:
-            res = batching.batch_run(bm.VModel, params, collectors=spec['collectors'], processes=spec['processes'], **kw)
-            out['result'] = res
-            out['aliasing'] = len({id(r) for r in res}) != len(res) if isinstance(res, list) else None
-        except BaseException as e:  # noqa
-            chain, cur = [], e
-            while cur is not None and len(chain) < 6:       # the error itself and what it was raised from
-                chain.append({'type': type(cur).__name__, 'tag': getattr(cur, 'tag', None)})
-                cur = cur.__cause__ or cur.__context__
-            out['raised'] = {'type': type(e).__name__, 'tag': getattr(e, 'tag', None), 'str': str(e)[:200], 'chain': chain}
-        out['wall'] = time.time() - t0
-        out['constructions'] = len([f for f in os.listdir(ctl) if f.startswith('ord_')])
-    finally:
-        faulthandler.cancel_dump_traceback_later()
-        shutil.rmtree(ctl, ignore_errors=True)
-    print(json.dumps(out), flush=True)
+            with open(os.path.join(ctl, 'control.json'), 'w') as f:
+                json.dump({'fault': spec.get('fault'), 'delays': spec.get('delays'), 'collectors': spec['collector_ids'],
+                           'collector_priority': spec.get('collector_priority')}, f)
+            params = {k: (range(*v['__range__']) if isinstance(v, dict) and '__range__' in v else v) for k, v in spec['grid'].items()}
+            params['ctl'] = ctl
+            params['stop'] = spec['stop']
+            if spec.get('use_parameter_list'):
+                if spec.get('pl_from_dict'):
+                    # declared through the constructor from a dict that the caller goes on using for something else afterwards
+                    source = dict(params)
+                    pl = batching.ParameterList(source)
+                    source['zzz_not_a_parameter'] = [1, 2, 3]
+                    del source[next(iter(params))]
+                else:
+                    pl = batching.ParameterList()
+                    for k, v in params.items():
+                        pl.add_parameter(k, v)
+                if spec.get('pl_warmup'):
+                    # the same ParameterList object has been used for another batch before (other model class, repetitions of its own)
+                    batching.batch_run(bm.WarmModel, pl, repetitions=spec['pl_warmup'], processes=1)
+                if spec.get('pl_history'):
+                    # the same ParameterList object was used before with one more parameter, which has been removed since
+                    pl.add_parameter('zeta', [1, 2, 3])
+                    pl.build()
+                    pl.remove_parameter('zeta')
+                params = pl
+            if spec.get('rejected_first') is not None:
+                # an EARLIER batch_run call of the same process was refused outright (an impossible process count); the caller caught that
+                try:
+                    batching.batch_run(bm.WarmModel, {'ctl': ctl, 'stop': 0, 'alpha': [7, 8, 9]}, processes=spec['rejected_first'])
+                    out['rejected_first'] = 'accepted'
+                except BaseException as e:  # noqa
+                    out['rejected_first'] = type(e).__name__
+            import multiprocessing
+            # workers are forked copies of this process - or, for some batches, fresh interpreters (spawn / forkserver)
+            multiprocessing.set_start_method(spec.get('start_method') or 'fork', force=True)
+            kw = {}
+            if spec.get('max_timesteps') is not None:
+                kw['max_timesteps'] = spec['max_timesteps']
+            if spec['repetitions'] != 1 or spec.get('explicit_reps'):
+                kw['repetitions'] = spec['repetitions']
+            t0 = time.time()
+            try:
+                res = batching.batch_run(bm.VModel, params, collectors=spec['collectors'], processes=spec['processes'], **kw)
+                out['result'] = res
+                out['aliasing'] = len({id(r) for r in res}) != len(res) if isinstance(res, list) else None
+            except BaseException as e:  # noqa
+                chain, cur = [], e
+                while cur is not None and len(chain) < 6:       # the error itself and what it was raised from
+                    chain.append({'type': type(cur).__name__, 'tag': getattr(cur, 'tag', None)})
+                    cur = cur.__cause__ or cur.__context__
+                out['raised'] = {'type': type(e).__name__, 'tag': getattr(e, 'tag', None), 'str': str(e)[:200], 'chain': chain}
+            out['wall'] = time.time() - t0
+            out['constructions'] = len([f for f in os.listdir(ctl) if f.startswith('ord_')])
+        finally:
+            faulthandler.cancel_dump_traceback_later()
+            shutil.rmtree(ctl, ignore_errors=True)
+        print(json.dumps(out), flush=True)
+
+
+if __name__ == '__main__':       # (workers started with spawn / forkserver import this file again)
+    main()
